@@ -138,6 +138,7 @@ impl C03 {
                 // twins of pool labels under lossy comparisons
                 Lab::Str("ах".into()), Lab::Str("0E".into()), Lab::Greek('\u{10430}'), Lab::Greek('\u{0430}'), Lab::Greek('0'),
                 Lab::Str("Foo".into()), Lab::Str("FOO".into()), Lab::Alpha(1), Lab::Alpha(1 << 32), Lab::Alpha((1 << 32) + 1), Lab::Str("myx".into()), Lab::Str("my x".into()),
+                Lab::Str("abcd".into()), Lab::Str("abcde".into()), Lab::Str("ab".into()), Lab::Alpha(120), Lab::Alpha(966), Lab::Str("φ+α1".into()),
             ],
         }
     }
